@@ -98,6 +98,9 @@ pub proof fn lemma_fdiv_exact(x: nat, c: nat, q: nat)
     assert(c * q == q * c) by(nonlinear_arith);
     vstd::arithmetic::div_mod::lemma_mul_mod_noop_general(q as int, (c * finv(c)) as int, P as int);
     vstd::arithmetic::div_mod::lemma_small_mod(q, P);
+    let k = (c * finv(c)) % P;
+    assert(k == 1) by { assert(fmul(c, finv(c)) == 1); }
+    assert(q * k == q) by(nonlinear_arith) requires k == 1;
     assert((q * ((c * finv(c)) % P)) % P == q % P);
 }
 /// (x / c) * c == x in the field
@@ -111,6 +114,9 @@ pub proof fn lemma_fdiv_back(x: nat, c: nat)
     assert((x * finv(c)) * c == x * (c * finv(c))) by(nonlinear_arith);
     vstd::arithmetic::div_mod::lemma_mul_mod_noop_general(x as int, (c * finv(c)) as int, P as int);
     vstd::arithmetic::div_mod::lemma_small_mod(x, P);
+    let k = (c * finv(c)) % P;
+    assert(k == 1) by { assert(fmul(c, finv(c)) == 1); }
+    assert(x * k == x) by(nonlinear_arith) requires k == 1;
     assert((x * ((c * finv(c)) % P)) % P == x % P);
 }
 
